@@ -97,7 +97,7 @@ CHECKS = {
          "DESIGN.md §4 C19"),
  "C20": ("determinism lint + map-range classification + panic inventory with path facts",
          "Decides structural necessary conditions of determinism and crash-freedom over the 229 consensus-reachable functions: banned constructs, classified map ranges, explicit panics / unchecked assertions / every index and slice expression justified by a dominating length fact or a listed invariant, "
-         "mutation during iteration only at the cursor, integer divisions by a divisor shown non-zero, map-entry writes only into maps that cannot be nil, slash fraction and tax kept in range by their registered validators, both module callbacks registered before a module context is stored. Replay identity, sdk.Int/Dec overflow and third-party panics are not decided.",
+         "mutation during iteration only at the cursor, integer divisions by a divisor shown non-zero, map-entry writes only into maps that cannot be nil, slash fraction and tax kept in range by their registered validators, both module callbacks registered before a module context is stored, functions whose error a caller turns into a panic reject on missing records / refused transfers only, every time decoded from JSON text is tested (with a rejecting exit) before it can reach the store's Must-marshal (D15, fixed). Replay identity, sdk.Int/Dec overflow and third-party panics are not decided.",
          "A-SDK, A-HOST. Trusted base: go/types, x/tools v0.29.0, svclint rule tables.",
          "DESIGN.md §4 C20"),
  "C18": ("key-grammar decision + layout agreement",
@@ -129,7 +129,7 @@ def main():
                 "engine": "svclint",
                 "level_claimed": {"category": "other", "text": text, "design_ref": ref},
                 "level_note": note + " Every check also decides the shared preconditions S1 (no mutable module state outside the store in entry-reachable code), "
-                              "S2 (records decoded in loops go into fresh targets), S3 (no pointer to a loop variable — or to one variable appended repeatedly — outlives its iteration), S4 (scans are exhaustive) and S5 (stored bytes are not aliased), on which reading state off store operations relies.",
+                              "S2 (records decoded in loops go into fresh targets), S3 (no pointer to a loop variable — or to one variable appended repeatedly — outlives its iteration), S4 (scans are exhaustive: no break but on the caller's stop, no callback that stops), S5 (stored bytes are not aliased) and S6 (handlers and callers pass arguments to the parameter that carries their name), on which reading state off store operations relies.",
                 "technique": "static analysis: " + tech,
             })
         else:
